@@ -17,7 +17,12 @@ pub fn run_seed(seed: u64, id: &str, r: u64) -> u64 {
 
 pub fn scratch_base() -> PathBuf {
     let shm = Path::new("/dev/shm");
-    let base = if shm.is_dir() { shm.to_path_buf() } else { std::env::temp_dir() };
+    // VERIF_SCRATCH_BASE points the scratch area at another filesystem (e.g. an ext4 directory) to show that
+    // results do not depend on tmpfs
+    let base = match std::env::var("VERIF_SCRATCH_BASE") {
+        Ok(p) if !p.is_empty() => PathBuf::from(p),
+        _ => if shm.is_dir() { shm.to_path_buf() } else { std::env::temp_dir() },
+    };
     base.join(format!("cacache-verif.{}", std::process::id()))
 }
 
@@ -136,7 +141,7 @@ pub fn lane_main(args: &Args) -> i32 {
         if samples.len() < 2 && nt && r >= args.lane {
             samples.push(json!({"run": r, "scenario": shorten(&sc), "log_tail": out.log.iter().rev().take(6).rev().cloned().collect::<Vec<_>>() }));
         }
-        hangs += out.viols.iter().filter(|v| v.sig.contains("hang")).count();
+        hangs += out.viols.iter().filter(|v| v.sig.ends_with("/hang") || v.sig.contains("/hang/")).count();
         for v in &out.viols {
             if spec.owns.contains(&v.class.as_str()) {
                 let c = per_sig.entry(v.sig.clone()).or_insert(0);
@@ -525,6 +530,11 @@ pub fn orchestrate(args: &Args) -> i32 {
         }
     }
 
+    // public entry points of the tree that the workers' operation table does not know (warning only)
+    let untabled = untabled_entry_points();
+    if !untabled.is_empty() {
+        println!("  warning: public entry points without a row in the operation table: {:?}", untabled);
+    }
     // evidence
     let wall = t0.elapsed().as_secs_f64();
     let mut zero_probes: Vec<String> = Vec::new();
@@ -561,6 +571,7 @@ pub fn orchestrate(args: &Args) -> i32 {
     if !inter.is_empty() {
         coverage["interleavings_distinct"] = json!(inter.len());
     }
+    coverage["untabled_entry_points"] = json!(untabled);
     if !replay_paths.is_empty() {
         coverage["replays"] = json!(replay_paths);
     }
@@ -699,4 +710,42 @@ pub fn gen_main(args: &Args) -> i32 {
     }
     println!("{}", serde_json::to_string_pretty(&sc).unwrap_or_default());
     0
+}
+
+const TABLED: &[&str] = &[
+    "write", "write_with_algo", "write_hash", "write_hash_with_algo", "create", "create_with_algo", "commit", "write_sync", "write_sync_with_algo", "write_hash_sync", "write_hash_sync_with_algo",
+    "open", "open_hash", "open_sync", "open_hash_sync", "algorithm", "size", "metadata", "raw_metadata", "time", "integrity", "new", "check",
+    "read", "read_hash", "read_sync", "read_hash_sync", "copy", "copy_unchecked", "copy_hash", "copy_hash_unchecked", "copy_sync", "copy_unchecked_sync", "copy_hash_sync", "copy_hash_unchecked_sync",
+    "reflink", "reflink_unchecked", "reflink_hash", "reflink_sync", "reflink_hash_sync", "reflink_hash_unchecked_sync", "reflink_unchecked_sync",
+    "hard_link", "hard_link_unchecked_sync", "hard_link_sync", "hard_link_hash_sync", "hard_link_hash_unchecked_sync",
+    "metadata_sync", "exists", "exists_sync", "remove", "remove_hash", "clear", "remove_sync", "remove_hash_sync", "clear_sync", "remove_fully",
+    "list_sync", "insert", "insert_async", "find", "find_async", "delete", "delete_async", "ls",
+    "link_to", "link_to_hash", "link_to_sync", "link_to_hash_sync",
+];
+
+/// `pub fn` / `pub async fn` names in the API files of the tree under test that the operation table does not list
+fn untabled_entry_points() -> Vec<String> {
+    let repo = std::env::var("VERIF_REPO").unwrap_or_else(|_| "/repo".into());
+    let mut out = Vec::new();
+    for f in ["get.rs", "put.rs", "rm.rs", "ls.rs", "linkto.rs", "index.rs"] {
+        let txt = std::fs::read_to_string(format!("{repo}/src/{f}")).unwrap_or_default();
+        let mut in_tests = false;
+        for l in txt.lines() {
+            if l.contains("mod tests") {
+                in_tests = true;
+            }
+            if in_tests {
+                continue;
+            }
+            let t = l.trim_start();
+            let rest = t.strip_prefix("pub async fn ").or_else(|| t.strip_prefix("pub fn "));
+            if let Some(r) = rest {
+                let name: String = r.chars().take_while(|c| c.is_alphanumeric() || *c == '_').collect();
+                if !TABLED.contains(&name.as_str()) && !out.contains(&name) {
+                    out.push(name);
+                }
+            }
+        }
+    }
+    out
 }
